@@ -286,6 +286,32 @@ pub fn main(tier: Tier, _replay: Option<String>) -> i32 {
             if d.hash != bi.hash {
                 bad(&mut rep, "chain-block", "hash", bi.label.clone());
             }
+            // the lite forms a full node serves to light clients (every transaction replaced by a
+            // placeholder; only K1's / only K2's kept): the lite encoding decodes to a block with
+            // the same pre-hash, hash and a signature that still verifies, and re-encodes to the
+            // same bytes
+            for (kn, kl) in [("none", vec![]), ("K1", vec![key(1).public]), ("K2", vec![key(2).public])] {
+                rep.evaluations += 1;
+                let mut full = decode_block(&bi.bytes);
+                let _ = full.generate();
+                let lite = full.generate_lite_block(kl);
+                let lb = block_bytes(&lite);
+                match Block::deserialize_from_net(&lb) {
+                    Ok(mut back) => {
+                        let _ = back.generate();
+                        if back.hash != bi.hash || back.pre_hash != full.pre_hash {
+                            bad(&mut rep, "lite-block", "hash-after-wire", format!("{} keys {}", bi.label, kn));
+                        }
+                        if !saito_core::core::util::crypto::verify_signature(&back.pre_hash, &back.signature, &back.creator) {
+                            bad(&mut rep, "lite-block", "signature-after-wire", format!("{} keys {}", bi.label, kn));
+                        }
+                        if block_bytes(&back) != lb {
+                            bad(&mut rep, "lite-block", "encode(decode)", format!("{} keys {}", bi.label, kn));
+                        }
+                    }
+                    Err(e) => bad(&mut rep, "lite-block", "decode(encode)", format!("{} keys {}: {:?}", bi.label, kn, e)),
+                }
+            }
             // the node writes the block to disk while adding it; load it back through Storage
             match node.add_block_bytes(&re) {
                 Outcome::Done(AddRes::AddedLongest) => {}
